@@ -51,6 +51,19 @@ CY = re.compile(r"after\s+(\d+) ([FVW])-cycles\s+\[.*\]\s+(\d) (\d)\s*$")
 QC = re.compile(r"^\s*(\d+)h_ (.*)$")
 
 
+class Horizon(Exception):
+    """More events than 10x the reference run: does not terminate."""
+
+
+class Rec(list):
+    limit = None
+
+    def append(self, x):
+        if self.limit is not None and len(self) > self.limit:
+            raise Horizon(f'{len(self)} events, horizon {self.limit}')
+        super().append(x)
+
+
 @contextlib.contextmanager
 def stubs(script, rec, leaves=True):
     """Replace the numerical leaves by recorders and script the fine-grid
@@ -123,7 +136,7 @@ def stubs(script, rec, leaves=True):
             setattr(mod, name, old)
 
 
-def observe(shape, cfg, leaves=True):
+def observe(shape, cfg, leaves=True, horizon=None):
     """Run the real solver with stubs; return observations."""
     import emg3d
     grid = emg3d.TensorMesh([np.ones(n) for n in shape], (0, 0, 0))
@@ -134,7 +147,8 @@ def observe(shape, cfg, leaves=True):
     sfield = emg3d.Field(grid, frequency=1.0)
     # unit source on an interior edge
     sfield.fx[shape[0]//2, 1, 1] = 1.0
-    rec = []
+    rec = Rec()
+    rec.limit = horizon
     kw = {k: cfg[k] for k in ('cycle', 'semicoarsening', 'linerelaxation',
                               'clevel', 'nu_init', 'nu_pre', 'nu_coarse',
                               'nu_post', 'maxit')}
@@ -205,7 +219,12 @@ def compare(shape, cfg, leaves=True):
                       cfg['linerelaxation'], cfg['clevel'], cfg['nu_init'],
                       cfg['nu_pre'], cfg['nu_coarse'], cfg['nu_post'],
                       cfg['maxit'], 1e-6, SCRIPTS[cfg['script']])
-    rec, info = observe(shape, cfg, leaves)
+    horizon = 10*(len(ref['kernels']) + len(ref['transfers'])) + 200
+    try:
+        rec, info = observe(shape, cfg, leaves, horizon)
+    except (Horizon, RecursionError) as e:
+        V('recursion-does-not-terminate', f'{type(e).__name__}: {e}')
+        return viol, ref, []
     events, digits, header, fig = parse_log(info['log'])
     # --- termination
     if info['it_mg'] != ref['it'] or info['exit_message'] != ref['message']:
